@@ -10,7 +10,7 @@
    it is harmless); with EncodedByteAlign every line starts with a skip to the byte boundary. *)
 From Coq Require Import List NArith ZArith Bool FMapPositive.
 From GoPdf.Base Require Import Bytes Res.
-From GoPdf.Gen Require Import Gen_C06ccitt.
+From GoPdf.Gen Require Import Gen_C06ccitt Gen_C06ccitt2d.
 From GoPdf.C06 Require Import Machine.
 Import ListNotations.
 Open Scope N_scope.
@@ -271,3 +271,28 @@ Definition g3_dec (p : g3p) (e : bytes) : res bytes :=
   | (_, Some c) => Err c
   | (_, None) => Err Panic
   end.
+
+(* ---- two-dimensional coding: the run decoder of the horizontal mode ---- *)
+
+(* Reader.decodeFullRun: make-up codes followed by the terminating code, at most [iter] codes *)
+Fixpoint full_run (iter : nat) (cols : N) (white : bool) (total : N) (r : g3r) : N * g3r :=
+  match iter with
+  | O => (total, r)
+  | S iter' =>
+    let '(n, st, r1) := decode_run white r in
+    let total' := total + n in
+    if (st =? st_termw) || (st =? st_termb) || (st =? st_eol) ||
+       (match r_err r1 with None => false | Some _ => true end) then (total', r1)
+    else if cols <? total' then (total', r1)
+    else full_run iter' cols white total' r1
+  end.
+
+(* the iteration bound is the expression of the `for range` statement in the Go source *)
+Definition full_run_iter (cols : N) : nat := Z.to_nat (decodeFullRun_bound (Z.of_N cols)).
+
+Definition decode_full_run (cols : N) (white : bool) (r : g3r) : N * g3r :=
+  full_run (full_run_iter cols) cols white 0 r.
+
+(* number of code words Writer.encode1DRun emits for a run *)
+Definition run_codes (n : N) : nat :=
+  (N.to_nat (n / 2560) + (if (64 <=? n mod 2560)%N then 1 else 0) + 1)%nat.
